@@ -169,6 +169,11 @@ class C20(Prop):
                 sc["cap"] = min(sc["cap"], 60)
             if sc["input"] == "ok_big":
                 sc["policy"] = Policy(buffer=g.choice([64, 256, 8192]), chunk=g.choice([32, 8192])).to_json()
+        if not call.startswith("read") and g.random() < 0.15:
+            # the same LASFile object went through a write()/to_csv() whose open() itself failed (missing directory) just before
+            sc["prior_failed_open"] = g.choice(["write", "to_csv"])
+        if call.startswith("read"):
+            pass
         elif call.startswith("write"):
             sc["input"] = g.choice(WRITE_INPUTS)
             sc["kw"] = dict(g.choice(WRITE_KW))
@@ -227,6 +232,11 @@ class C20(Prop):
                 else:
                     caller_stream = io.StringIO()
                     dst = caller_stream
+                if sc.get("prior_failed_open"):
+                    try:
+                        getattr(las, sc["prior_failed_open"])("/nonexistent-directory-lasim/out.las")
+                    except Exception:
+                        pass
                 try:
                     if call.startswith("write"):
                         las.write(dst, **sc["kw"])
